@@ -160,7 +160,12 @@ def run_kind(case, kind, names, rep):
         if kind.startswith("mdachain"):
             ds = build(case, case["x0"])
             pos = _positions(ds)
-            settings = {}
+            # plain fixed-point iterations (no acceleration, no relaxation): on a nilpotent integer system
+            # every iterate is an integer vector, the residual is 0 exactly at the fixed point and at
+            # least 1/|r0| >> tolerance before, so the MDA returns the exact solution
+            settings = {"tolerance": 1e-12, "max_mda_iter": 30,
+                        "inner_mda_settings": {"acceleration_method": "NoTransformation",
+                                               "over_relaxation_factor": 1.0}}
             if kind == "mdachain_gs":
                 settings["inner_mda_name"] = "MDAGaussSeidel"
             if kind == "mdachain_par":
